@@ -69,7 +69,7 @@ type lndPanic struct {
 // harness panics by their type name.
 func isTypedSimcorePanic(p interface{}) bool {
 	tn := fmt.Sprintf("%T", p)
-	return tn == "simcore.violationPanic" || tn == "simcore.harnessPanic"
+	return tn == "simcore.violationPanic" || tn == "simcore.harnessPanic" || tn == "simcore.unjudgedPanic"
 }
 
 // panicFromLnd reports whether the first non-runtime frame after the panic is
